@@ -43,7 +43,7 @@ def _mine(path):
         return False
     if isinstance(p, bytes):
         p = p.decode("latin-1")
-    return isinstance(p, str) and p.startswith(PREFIX) and _FS is not None
+    return isinstance(p, str) and (p.startswith(PREFIX) or p == PREFIX.rstrip("/")) and _FS is not None
 
 
 class _Files(dict):
@@ -121,6 +121,12 @@ class FS:
             f = self._op("open-w", path, "create" if path not in self.files else "truncate")
             if f == "eperm":
                 raise PermissionError(errno.EACCES, "Permission denied", path)
+            modes = self.__dict__.setdefault("modes", {})
+            if path in self.files and not modes.get(path, 0o644) & 0o200:
+                # the simulated processes do not run as root: their own read-only file is read-only
+                raise PermissionError(errno.EACCES, "Permission denied", path)
+            if path not in self.files:
+                modes[path] = 0o666 & ~self.__dict__.get("umask", 0o022)
             if f == "eio":
                 raise OSError(errno.EIO, "Input/output error", path)
             if f == "enospc" and path not in self.files:
@@ -389,7 +395,7 @@ def _os_stat(path, *a, **kw):
         raise FileNotFoundError(errno.ENOENT, "No such file or directory", p)
     size = len(_FS.files[p])
     mt = 1_700_000_000 + getattr(_FS.files, "mtimes", {}).get(p, 0)
-    return os.stat_result((0o100600, 0, 0, 1, 0, 0, size, mt, mt, mt))
+    return os.stat_result((0o100000 | _FS.__dict__.get('modes', {}).get(p, 0o644), 0, 0, 1, 0, 0, size, mt, mt, mt))
 
 
 def _os_access(path, mode, *a, **kw):
@@ -410,7 +416,90 @@ def _os_chmod(path, mode, *a, **kw):
         raise PermissionError(errno.EPERM, "Operation not permitted", path)
     if f in ("eio", "erofs"):
         raise OSError(errno.EROFS if f == "erofs" else errno.EIO, "chmod failed", path)
+    _FS.__dict__.setdefault("modes", {})[path] = mode & 0o7777
     return None
+
+
+def _os_umask(mask):
+    """Under a simulated file system the process's umask is the file system's (the harness's own
+    umask is not touched)."""
+    if _FS is None or not _umask_sim():
+        return _real_os["umask"](mask)
+    old = _FS.__dict__.get("umask", 0o022)
+    _FS.umask = mask & 0o777
+    return old
+
+
+def _umask_sim():
+    from sim import boot as _boot
+    return bool(getattr(_boot, "IN_RUN", False))
+
+
+class _DirEntry:
+    def __init__(self, d, name, isdir):
+        self.name = name
+        self.path = d.rstrip("/") + "/" + name
+        self._isdir = isdir
+
+    def is_dir(self, follow_symlinks=True):
+        return self._isdir
+
+    def is_file(self, follow_symlinks=True):
+        return not self._isdir
+
+    def is_symlink(self):
+        return False
+
+
+class _ScanDir(list):
+    def __enter__(self):
+        return self
+
+    def __exit__(self, *a):
+        return False
+
+    def close(self):
+        pass
+
+
+def _children(d):
+    d = os.fspath(d).rstrip("/") + "/"
+    out = {}
+    for p in _FS.files:
+        if p.startswith(d):
+            rest = p[len(d):]
+            name, _, more = rest.partition("/")
+            out[name] = out.get(name, False) or bool(more)
+    return out
+
+
+def _os_scandir(path="."):
+    if isinstance(path, int) or not _mine(path):
+        return _real_os["scandir"](path)
+    ch = _children(path)
+    if not ch and os.fspath(path).rstrip("/") != "/simfs":
+        raise FileNotFoundError(errno.ENOENT, "No such file or directory", os.fspath(path))
+    return _ScanDir(_DirEntry(os.fspath(path), n, isd) for n, isd in sorted(ch.items()))
+
+
+def _os_listdir(path="."):
+    if isinstance(path, int) or not _mine(path):
+        return _real_os["listdir"](path)
+    return [e.name for e in _os_scandir(path)]
+
+
+def _lexists(path):
+    if _mine(path):
+        p = os.fspath(path)
+        return p in _FS.files or bool(_children(p)) or p.rstrip("/") == "/simfs"
+    return _real_lexists(path)
+
+
+def _isdir(path):
+    if _mine(path):
+        p = os.fspath(path)
+        return p not in _FS.files and (bool(_children(p)) or p.rstrip("/") == "/simfs")
+    return _real_isdir(path)
 
 
 def _getsize(path):
@@ -455,6 +544,7 @@ def _path_read_text(self, *a, **kw):
 
 
 _installed = False
+_real_lexists = _real_isdir = None
 
 
 def install():
@@ -471,7 +561,12 @@ def install():
     for name, fn in (("open", _os_open), ("write", _os_write), ("read", _os_read),
                      ("close", _os_close), ("fsync", _os_fsync), ("rename", _os_rename),
                      ("replace", _os_rename), ("remove", _os_remove), ("unlink", _os_remove),
-                     ("stat", _os_stat), ("access", _os_access), ("chmod", _os_chmod)):
+                     ("stat", _os_stat), ("access", _os_access), ("chmod", _os_chmod),
+                     ("umask", _os_umask), ("scandir", _os_scandir), ("listdir", _os_listdir)):
         _real_os[name] = getattr(os, name)
         setattr(os, name, fn)
     os.path.getsize = _getsize
+    global _real_lexists, _real_isdir
+    _real_lexists, _real_isdir = os.path.lexists, os.path.isdir
+    os.path.lexists = _lexists
+    os.path.isdir = _isdir
